@@ -20,6 +20,16 @@ fn ts(t: u64, j: u64, c: u64, dl: u64, last: u64, maxseg: u64) -> TaskSpec {
     }
 }
 
+fn tsa(arr: &ArrSpec, c: u64, dl: u64, last: u64, maxseg: u64) -> TaskSpec {
+    TaskSpec {
+        arr: arr.clone(),
+        cost: CostSpec::Scalar(c),
+        deadline: dl,
+        last_seg: last,
+        max_seg: maxseg,
+    }
+}
+
 fn sporadic_params(a: &ArrSpec) -> Option<(u64, u64)> {
     match a {
         ArrSpec::Sporadic { t, j } => Some((*t, *j)),
@@ -509,42 +519,52 @@ pub fn run_c19(ctx: &mut Ctx) -> (String, Value, Vec<String>) {
     let jl: Vec<u64> = if quick { vec![0, 2, 7] } else { vec![0, 1, 2, 4, 7, 15] };
     let cl: Vec<u64> = vec![1, 2, 3];
     let dls: Vec<u64> = if quick { vec![1, 4, 9] } else { vec![1, 3, 6, 9, 14] };
-    let mut per = vec![];
+    let mut per: Vec<(ArrSpec, u64)> = vec![];
     for t in &tl {
         for j in &jl {
             for c in &cl {
-                per.push((*t, *j, *c));
+                per.push((ArrSpec::Sporadic { t: *t, j: *j }, *c));
             }
+        }
+    }
+    // exact curves that are not sporadic: periodic, auto-extrapolating super-additive prefixes
+    for c in &cl {
+        per.push((ArrSpec::Periodic { t: 4 }, *c));
+        per.push((ArrSpec::ExtCurve { dmin: vec![0, 4] }, *c));
+        per.push((ArrSpec::ExtCurve { dmin: vec![1, 3, 7] }, *c));
+        if !quick {
+            per.push((ArrSpec::ExtCurve { dmin: vec![2, 4, 9, 11] }, *c));
+            per.push((ArrSpec::Propagated { inner: Box::new(ArrSpec::ExtCurve { dmin: vec![3, 6] }), j: 2 }, *c));
         }
     }
     let n = AtomicU64::new(0);
     let nt = AtomicU64::new(0);
     let bad = Mutex::new(Vec::<(String, String, Value)>::new());
-    let pairs: Vec<((u64, u64, u64), (u64, u64, u64))> = per.iter().flat_map(|a| per.iter().map(move |b| (*a, *b))).collect();
+    let pairs: Vec<((ArrSpec, u64), (ArrSpec, u64))> = per.iter().flat_map(|a| per.iter().map(move |b| (a.clone(), b.clone()))).collect();
     pairs.par_iter().for_each(|(a, b)| {
         for limit in [LIMIT, 9] {
             for bb in [0u64, 1, 3] {
-                let mk = |ana: Ana, last: u64, bb: u64| UniCase { ana, tasks: vec![ts(a.0, a.1, a.2, 0, 1, 1), ts(b.0, b.1, b.2, 0, last, 1)], tua: 1, blocking: bb, limit };
+                let mk = |ana: Ana, last: u64, bb: u64| UniCase { ana, tasks: vec![tsa(&a.0, a.1, 0, 1, 1), tsa(&b.0, b.1, 0, last, 1)], tua: 1, blocking: bb, limit };
                 if bb == 0 {
                     eq_pair(&bad, "FP limited-preemptive(last=1, no blocking) vs fully preemptive", &mk(Ana::FpLp, 1, 0), &mk(Ana::FpP, 1, 0), &n, &nt);
                 }
-                eq_pair(&bad, "FP limited-preemptive(last=WCET) vs non-preemptive", &mk(Ana::FpLp, b.2, bb), &mk(Ana::FpNp, 1, bb), &n, &nt);
+                eq_pair(&bad, "FP limited-preemptive(last=WCET) vs non-preemptive", &mk(Ana::FpLp, b.1, bb), &mk(Ana::FpNp, 1, bb), &n, &nt);
                 eq_pair(&bad, "FP floating vs limited-preemptive(last=1)", &mk(Ana::FpFl, 1, bb), &mk(Ana::FpLp, 1, bb), &n, &nt);
             }
             for d0 in &dls {
                 for d1 in &dls {
-                    let mk = |ana: Ana, last: u64, np0: u64| UniCase { ana, tasks: vec![ts(a.0, a.1, a.2, *d0, 1, np0), ts(b.0, b.1, b.2, *d1, last, 1)], tua: 1, blocking: 0, limit };
+                    let mk = |ana: Ana, last: u64, np0: u64| UniCase { ana, tasks: vec![tsa(&a.0, a.1, *d0, 1, np0), tsa(&b.0, b.1, *d1, last, 1)], tua: 1, blocking: 0, limit };
                     eq_pair(&bad, "EDF limited-preemptive(all segments 1) vs fully preemptive", &mk(Ana::EdfLp, 1, 1), &mk(Ana::EdfP, 1, 1), &n, &nt);
                     eq_pair(&bad, "EDF floating(all segments 1) vs fully preemptive", &mk(Ana::EdfFl, 1, 1), &mk(Ana::EdfP, 1, 1), &n, &nt);
-                    eq_pair(&bad, "EDF limited-preemptive(segments = WCET) vs non-preemptive", &mk(Ana::EdfLp, b.2, a.2), &mk(Ana::EdfNp, 1, a.2), &n, &nt);
-                    for np0 in 1..=a.2 {
+                    eq_pair(&bad, "EDF limited-preemptive(segments = WCET) vs non-preemptive", &mk(Ana::EdfLp, b.1, a.1), &mk(Ana::EdfNp, 1, a.1), &n, &nt);
+                    for np0 in 1..=a.1 {
                         eq_pair(&bad, "EDF floating vs limited-preemptive(last=1)", &mk(Ana::EdfFl, 1, np0), &mk(Ana::EdfLp, 1, np0), &n, &nt);
                     }
                 }
             }
             // equal relative deadlines: max over tasks of NP-EDF == FIFO
             for dl in &dls {
-                let tasks = vec![ts(a.0, a.1, a.2, *dl, 1, a.2), ts(b.0, b.1, b.2, *dl, 1, b.2)];
+                let tasks = vec![tsa(&a.0, a.1, *dl, 1, a.1), tsa(&b.0, b.1, *dl, 1, b.1)];
                 let fifo = catch(|| run_uni(&UniCase { ana: Ana::Fifo, tasks: tasks.clone(), tua: 0, blocking: 0, limit }));
                 let e: Vec<_> = (0..2).map(|i| catch(|| run_uni(&UniCase { ana: Ana::EdfNp, tasks: tasks.clone(), tua: i, blocking: 0, limit }))).collect();
                 n.fetch_add(1, Ordering::Relaxed);
@@ -609,11 +629,19 @@ pub fn run_c19(ctx: &mut Ctx) -> (String, Value, Vec<String>) {
     for (k, w, c) in bad {
         ctx.violation(&k, &w, "agree", c);
     }
+    // a few of the equalities actually evaluated, written out
+    let mut samples = vec![];
+    for (a, b) in pairs.iter().step_by((pairs.len() / 3).max(1)).take(3) {
+        let x = UniCase { ana: Ana::FpLp, tasks: vec![tsa(&a.0, a.1, 0, 1, 1), tsa(&b.0, b.1, 0, b.1, 1)], tua: 1, blocking: 1, limit: LIMIT };
+        let mut y = x.clone();
+        y.ana = Ana::FpNp;
+        samples.push(json!({"pair": "FP limited-preemptive(last=WCET) vs non-preemptive", "left": x, "left_result": format!("{:?}", catch(|| run_uni(&x))), "right_result": format!("{:?}", catch(|| run_uni(&y)))}));
+    }
     let cov = json!({
         "evaluations": n.load(Ordering::Relaxed),
         "distinct_nontrivial": nt.load(Ordering::Relaxed),
-        "rule": format!("every pair of the statement on every two-task system over T in {:?}, J in {:?}, C in 1..3 (x deadlines {:?}, blocking 0/1/3, limits 60 and 9), and every ROS 2 base case on dedicated vs full-budget reservations with P in {{1,2,5}}; non-trivial = both sides Ok with a bound > 2", tl, jl, dls),
-        "samples": [{"pair": "FP limited-preemptive(last=WCET) vs non-preemptive", "tasks": [[3, 2, 2], [5, 0, 3]], "blocking": 1}],
+        "rule": format!("every pair of the statement on every two-task system over (plus periodic and auto-extrapolating curves) T in {:?}, J in {:?}, C in 1..3 (x deadlines {:?}, blocking 0/1/3, limits 60 and 9), and every ROS 2 base case on dedicated vs full-budget reservations with P in {{1,2,5}}; non-trivial = both sides Ok with a bound > 2", tl, jl, dls),
+        "samples": samples,
         "exhaustive": true,
     });
     ("exploration".into(), cov, vec!["arrival menu restricted to sub-additive curves (sporadic with jitter), as the equalities presuppose exact curves".into()])
